@@ -85,7 +85,7 @@ func TestC05(t *testing.T) {
 	fixtures := fileFixtures(newRand(r.SeedFor("fixtures")), !r.Quick())
 	// extra shapes for the exhaustive range sweep
 	rr := newRand(r.SeedFor("c05shapes"))
-	for i := 0; i < r.Pick(12, 150); i++ {
+	for i := 0; i < r.Pick(40, 600); i++ {
 		w := 2 + rr.Intn(3)
 		k := 1 + rr.Intn(5)
 		n := 1 + rr.Intn(40)
@@ -321,7 +321,7 @@ func TestC05(t *testing.T) {
 	}
 
 	// paths: resolving a path fetches only the blocks on that path
-	for i := 0; i < r.Pick(12, 120); i++ {
+	for i := 0; i < r.Pick(40, 500); i++ {
 		i := i
 		r.Case(fmt.Sprintf("tree/%d", i), map[string]any{"tree": i}, func(c *mon.Case) {
 			root := genTree(c.Rand(), 3, true)
